@@ -1,0 +1,74 @@
+//go:build verif
+
+package cache
+
+import "reservoir/utils"
+
+// Accessors for external verification harnesses (build tag `verif`).
+// They only read state or call existing internal entry points.
+
+// VerifRunCleanupCycle runs one janitor cycle synchronously on the caller's goroutine.
+func (c *MemoryCache[MetadataT]) VerifRunCleanupCycle() {
+	c.janitor.cleanExpiredEntries()
+	c.janitor.ensureCacheSize()
+}
+
+// VerifLimits returns the limits the cache currently enforces.
+func (c *MemoryCache[MetadataT]) VerifLimits() (maxCacheSize int64, memoryCap int64) {
+	c.mu.RLock()
+	defer c.mu.RUnlock()
+	return c.maxCacheSize.Get(), c.memoryCap
+}
+
+// VerifByteSize returns the cache's own byte counter.
+func (c *MemoryCache[MetadataT]) VerifByteSize() int64 { return c.byteSize.Get() }
+
+// VerifLen returns the number of entries in the index.
+func (c *MemoryCache[MetadataT]) VerifLen() int {
+	c.mu.RLock()
+	defer c.mu.RUnlock()
+	return len(c.entries)
+}
+
+// VerifKeys returns the keys currently in the index.
+func (c *MemoryCache[MetadataT]) VerifKeys() []CacheKey {
+	c.mu.RLock()
+	defer c.mu.RUnlock()
+	keys := make([]CacheKey, 0, len(c.entries))
+	for k := range c.entries {
+		keys = append(keys, k)
+	}
+	return keys
+}
+
+func (c *FileCache[MetadataT]) VerifRunCleanupCycle() {
+	c.janitor.cleanExpiredEntries()
+	c.janitor.ensureCacheSize()
+}
+
+func (c *FileCache[MetadataT]) VerifLimits() (maxCacheSize int64, memoryCap int64) {
+	return c.maxCacheSize.Get(), -1
+}
+
+func (c *FileCache[MetadataT]) VerifByteSize() int64 { return c.byteSize.Get() }
+
+func (c *FileCache[MetadataT]) VerifLen() int {
+	c.mu.RLock()
+	defer c.mu.RUnlock()
+	return len(c.entriesMetadata)
+}
+
+func (c *FileCache[MetadataT]) VerifKeys() []CacheKey {
+	c.mu.RLock()
+	defer c.mu.RUnlock()
+	keys := make([]CacheKey, 0, len(c.entriesMetadata))
+	for k := range c.entriesMetadata {
+		keys = append(keys, k)
+	}
+	return keys
+}
+
+// VerifShardIndex returns the lock shard a key maps to for the given shard count.
+func VerifShardIndex(key CacheKey, shards int) int {
+	return int(utils.Hex8ToIndex(key.Hex) % uint32(shards))
+}
